@@ -59,7 +59,14 @@ def run(ctx):
         ps = ipaths(F, f, stop=hm_stop, depth=3)
         if any(p.calls(hit) or p.calls(miss) for p in ps):
             cand[n] = (f, ps)
-    inner = {n for n, (f, ps) in cand.items() if not any(t.get("rpath") in cand and t.get("rpath") != n for b, t in f.calls())}
+    def reaches_other(n):
+        for nid in F.insts_of(n):
+            for m in F.inst_reach([nid]):
+                d = F.def_of(m)
+                if d != n and d in cand:
+                    return True
+        return False
+    inner = {n for n in cand if not reaches_other(n)}
     lookups = [cand[n][0] for n in sorted(inner)]
     ctx.floor("R16.1", "lookup functions that count hits/misses", len(lookups), 1)
     for f in lookups:
